@@ -12,6 +12,8 @@
 //	                                                               per site: run for real, gate, or drop)
 //	import=P=Q  import "P"                                      ->  import P "Q" (a harness package with the
 //	                                                               API subset of P the file uses, e.g. os -> verifmc/vfs)
+//	maprange  `for k, v := range m` over a map                  ->  keys visited in the order vorder's policy says
+//	                                                               (see maprange.go; native loop when the policy is 0)
 //	sync  import "sync" / "sync/atomic"                          ->  verifmc/vsync, verifmc/vatomic
 //	                                                               (same API; every operation is a scheduling point
 //	                                                               under the controlled scheduler, the real primitive
@@ -282,6 +284,20 @@ func rewrite(src, dst, dir string, passes map[string]bool) (bool, error) {
 	if passes["access"] {
 		if instrumentAccess(f, need) {
 			changed = true
+		}
+	}
+	if passes["maprange"] {
+		if instrumentMapRange(fset, f, need) {
+			changed = true
+			// the rewrite mixes nodes with and without positions; comments (kept by position) could land
+			// inside the new code, so only the ones in front of the package clause (build constraints) stay
+			var keep []*ast.CommentGroup
+			for _, cg := range f.Comments {
+				if cg.End() < f.Package {
+					keep = append(keep, cg)
+				}
+			}
+			f.Comments = keep
 		}
 	}
 	if !changed {
